@@ -97,7 +97,8 @@ func (k Keeper) DistributeReward(ctx context.Context) error {
 			return err
 		}
 
-		power := math.LegacyNewDec(voteInfo.Validator.Power).Quo(math.LegacyNewDec(totalPower))
+		// truncate the share fraction: a rounded fraction lets the shares add up to more than the pool
+		power := math.LegacyNewDec(voteInfo.Validator.Power).QuoTruncate(math.LegacyNewDec(totalPower))
 		if !pool.Gas.IsZero() {
 			share := math.LegacyNewDecFromBigInt(pool.Gas.BigInt()).MulTruncate(power).TruncateInt()
 			if !share.IsZero() {
